@@ -31,3 +31,4 @@ std::string toHex(const uint8_t *p, size_t n);
 
 typedef int (*ComponentMain)();
 int comp_volume();
+int comp_wopn();
